@@ -41,10 +41,12 @@ VARIABLES role, sock, lite,   \* configuration (never changes)
           nom,                \* nomination_complete: "none" | "true" | "false"
           pend,               \* outstanding transactions: set of [dst, rnd, uc]
           nrounds,            \* check rounds started so far
+          phost,              \* P's (first) entry in the candidate list is the signalled host candidate
+                              \* (FALSE: P was first learnt as a peer-reflexive candidate from a request)
           hist, last
 
-vars == <<role, sock, lite, started, state, rc, sel, nom, pend, nrounds, hist, last>>
-view == <<role, sock, lite, started, state, rc, sel, nom, pend, nrounds>>
+vars == <<role, sock, lite, started, state, rc, sel, nom, pend, nrounds, phost, hist, last>>
+view == <<role, sock, lite, started, state, rc, sel, nom, pend, nrounds, phost>>
 cfgv == <<role, sock, lite>>
 
 Txn == [dst : Addr, rnd : 1..3, uc : BOOLEAN]
@@ -58,6 +60,7 @@ TypeOK ==
   /\ nom \in {"none", "true", "false"}
   /\ pend \subseteq Txn
   /\ nrounds \in 0..3
+  /\ phost \in BOOLEAN
 
 Init ==
   /\ role \in Roles /\ sock \in Socks /\ lite \in Lites
@@ -65,10 +68,16 @@ Init ==
   /\ state = "New"
   /\ rc = {} /\ sel = "none" /\ nom = "none"
   /\ pend = {} /\ nrounds = 0
+  /\ phost = FALSE
   /\ hist = <<>>
   /\ last = [kind |-> "init"]
 
-Log(a) == hist' = Append(hist, a)
+\* every history entry carries the state it leads to, so that a replay can wait for the
+\* (asynchronous) effects of one step before it applies the next
+Snap(st, r, s, n, ps, ph) ==
+  [state |-> st, rc |-> r, sel |-> s, nom |-> n, phost |-> ph,
+   pend |-> {[dst |-> p.dst, uc |-> p.uc] : p \in ps}]
+Log(a) == hist' = Append(hist, [a |-> a, st |-> Snap(state', rc', sel', nom', pend', phost')])
 
 PendDsts(ps) == {p.dst : p \in ps}
 
@@ -87,12 +96,13 @@ Start ==
   /\ ~started /\ state # "Failed"
   /\ started' = TRUE
   /\ rc' = rc \cup {"P"}
+  /\ phost' = (IF "P" \in rc THEN phost ELSE TRUE)
   /\ state' = "Checking"
   /\ (LET r == IF sel = "none" THEN NewRound(pend, rc', nrounds) ELSE [pend |-> pend, n |-> nrounds]
       IN pend' = r.pend /\ nrounds' = r.n)
   /\ last' = [kind |-> "start"]
-  /\ Log([op |-> "start"])
   /\ UNCHANGED <<sel, nom, cfgv>>
+  /\ Log([op |-> "start"])
 
 ---------------------------------------------------------------------------
 (* Inbound Binding request.                                                *)
@@ -100,8 +110,8 @@ Start ==
 Authentic(q) == q.user = "ok" /\ q.mi = "ok"
 
 \* pair priority on one local host candidate: a signalled host candidate (P) beats a
-\* peer-reflexive one (X)
-Better(a, b) == a = "P" /\ b = "X"
+\* peer-reflexive one (X, or P when it was first learnt from a request)
+Better(a, b) == a = "P" /\ b = "X" /\ phost
 
 \* What handle_stun_request does with a request it accepts.
 Accept(src, uc) ==
@@ -124,8 +134,8 @@ Request(q) ==
       THEN Accept(q.src, q.uc)
       ELSE UNCHANGED <<rc, sel, state, nom, pend, nrounds>>)
   /\ last' = [kind |-> "request", auth |-> Authentic(q), known |-> (q.src \in rc)]
+  /\ UNCHANGED <<started, phost, cfgv>>
   /\ Log([op |-> "request", src |-> q.src, user |-> q.user, mi |-> q.mi, uc |-> q.uc, fp |-> q.fp])
-  /\ UNCHANGED <<started, cfgv>>
 
 Requests == [src : Addr, user : UserAlpha, mi : MiAlpha, uc : BOOLEAN, fp : FpAlpha]
 
@@ -134,24 +144,33 @@ Requests == [src : Addr, user : UserAlpha, mi : MiAlpha, uc : BOOLEAN, fp : FpAl
 Unknown == [dst |-> "none", rnd |-> 0, uc |-> FALSE]
 
 Matched(p, class) ==
-  LET others == {o \in pend : o.rnd = p.rnd /\ o # p /\ ~o.uc} IN
+  LET others     == {o \in pend : o.rnd = p.rnd /\ o # p /\ ~o.uc}
+      nominating == \E o \in pend : o.rnd = p.rnd /\ o.uc     \* this round is past its check phase
+  IN
   IF ~p.uc
   THEN \* ordinary connectivity check of round p.rnd
-    IF class = "success"
+    IF nominating
+    THEN \* the round no longer polls its checks: the transaction is consumed, nothing else happens
+         /\ pend' = pend \ {p}
+         /\ UNCHANGED <<sel, state, nom>>
+    ELSE IF class = "success"
     THEN IF role = "controlled"
-         THEN /\ pend' = pend \ ({p} \cup others)
+         THEN \* the round ends (after a grace period for its other checks, which are then dropped)
+              /\ pend' = pend \ ({p} \cup others)
               /\ (IF nom # "none" THEN UNCHANGED <<sel, state>>
                   ELSE sel' = p.dst /\ state' = "Connected")
               /\ UNCHANGED nom
-         ELSE /\ pend' = (pend \ ({p} \cup others)) \cup {[dst |-> p.dst, rnd |-> p.rnd, uc |-> TRUE]}
+         ELSE \* controlling: Connected, then the successful pair is nominated; the round's other
+              \* checks stay outstanding until the round function returns
+              /\ pend' = (pend \ {p}) \cup {[dst |-> p.dst, rnd |-> p.rnd, uc |-> TRUE]}
               /\ state' = "Connected"
               /\ UNCHANGED <<sel, nom>>
     ELSE /\ pend' = pend \ {p}
          /\ UNCHANGED <<sel, state, nom>>
-  ELSE \* nomination check (controlling agent)
+  ELSE \* nomination check (controlling agent): the round function returns afterwards
     IF class = "success"
-    THEN /\ pend' = pend \ {p} /\ sel' = p.dst /\ nom' = "true" /\ UNCHANGED state
-    ELSE /\ pend' = pend \ {p} /\ sel' = p.dst /\ nom' = "false" /\ state' = "Failed"
+    THEN /\ pend' = pend \ ({p} \cup others) /\ sel' = p.dst /\ nom' = "true" /\ UNCHANGED state
+    ELSE /\ pend' = pend \ ({p} \cup others) /\ sel' = p.dst /\ nom' = "false" /\ state' = "Failed"
 
 Response(tx, class, src) ==
   /\ state # "Failed"
@@ -161,11 +180,11 @@ Response(tx, class, src) ==
            THEN \E p \in pend : Matched(p, class)          \* a response consumed although it matches nothing
            ELSE UNCHANGED <<sel, state, nom, pend>>)
   /\ last' = [kind |-> "response", matched |-> (tx \in pend)]
+  /\ UNCHANGED <<rc, nrounds, started, phost, cfgv>>
   /\ Log([op |-> "response",
           tx |-> IF tx \in pend THEN [dst |-> tx.dst, uc |-> tx.uc, known |-> TRUE]
                  ELSE [dst |-> "none", uc |-> FALSE, known |-> FALSE],
           class |-> class, src |-> src])
-  /\ UNCHANGED <<rc, nrounds, started, cfgv>>
 
 Next ==
   \/ Start
